@@ -1373,6 +1373,11 @@ impl TensorStore {
         self.router.clear();
         for key in new_router.scan("") {
             if let Ok(value) = new_router.get(&key) {
+                // The restored keys go through the router directly: a Bloom filter in front of
+                // it must hear of them first, or `get` / `exists` deny keys that `scan` lists.
+                if let Some(ref filter) = self.bloom_filter {
+                    filter.add(&key);
+                }
                 // Best-effort restore - continue even if individual entries fail
                 if let Err(e) = self.router.put(&key, value) {
                     tracing::warn!(
@@ -2508,6 +2513,20 @@ mod tests {
         // After clear, key should not be found
         assert!(!store.exists("key1"));
         assert!(store.is_empty());
+    }
+
+    #[test]
+    fn restore_from_bytes_tells_the_bloom_filter() {
+        let src = TensorStore::new();
+        src.put("user:restored", TensorData::new()).unwrap();
+        let bytes = src.snapshot_bytes().unwrap();
+
+        let dst = TensorStore::with_bloom_filter(100, 0.01);
+        dst.restore_from_bytes(&bytes).unwrap();
+
+        assert_eq!(dst.scan("user:"), vec!["user:restored".to_string()]);
+        assert!(dst.exists("user:restored"));
+        assert!(dst.get("user:restored").is_ok());
     }
 
     #[test]
